@@ -1413,6 +1413,17 @@ def orders_case(ctx, U, sel, strided, hc, pl, exprs, meta, origin):
     Rj = dict(R) if not pl else dict(R, Lam=None)
     bad, nj = oracle(Us, {k: v for k, v in Rj.items() if not (pl and k == "Lam")}, ms[0], ms[1], dict(hc, cov_max=hc.get("cov_max", 1.0)), pl)
     ctx.not_judged += nj
+    # "its complex conjugate is present" is a consequence of the mirror-image structure of tables that come from an identification (conjugate
+    # eigenvalue with conjugate shape and equal covariance: C09_conj_closed_*_inst); a hand-made table whose "conjugate" cell carries an unrelated
+    # shape can lose that cell to MPC/MPD while the pole stays - nothing the property promises, since no run produces such tables
+    try:
+        mirrored = bool(table_structure(Us)["mirror"])
+    except Exception:
+        mirrored = False
+    if not mirrored:
+        dropped = [b for b in bad if b[1] == "conj-partner-removed"]
+        ctx.not_judged += len(dropped)
+        bad = [b for b in bad if b[1] != "conj-partner-removed"]
     alive = int((~np.isnan(R["Fn"])).sum())
     total = int((~np.isnan(Us["Fn"])).sum())
     ctx.count(dict(case, U=None, digest=[alive, total, float(np.nansum(U["Fn"]))]), nontrivial=bool(0 < alive < total))
